@@ -31,7 +31,9 @@ LEVEL_TEXT = ("Proved in Lean for every history and every hash function: the cac
               "update_cache / session restart / cache deletion on an uncorrupted workspace; under it the id listing does "
               "not depend on the cache at all and every state point handed out for an existing id hashes to that id whatever "
               "the cache holds (fresh, stale, none); after update_cache the cache file lists exactly the workspace ids, and "
-              "an immediate second call returns None and changes nothing. The Lean model's predictions (return value of "
+              "an immediate second call returns None and changes nothing; the chunking of the ids update_cache reads "
+              "(_split_and_print_progress) covers its input for every list and every chunk count: no id dropped, duplicated "
+              "or re-ordered (chunks_cover_all_ids, chunks_cover). The Lean model's predictions (return value of "
               "update_cache, ids in the cache file, session cache ids) are compared with the real code after every step; "
               "an independent oracle compares the three views (live session, fresh session with and without cache file) "
               "with the raw workspace.")
